@@ -92,6 +92,7 @@ def check_case(case, ctx):
             continue
         st, pred = call(alg.is_scoring_scheme_relevant_when_incomplete_rankings, scheme)
         ctx.count("predicate_calls")
+        ctx.unit()
         ctx.count("predicate:" + (cfg if cfg in CONFIGS else "nested-random"))
         if cfg not in CONFIGS and cfg.count("[") + cfg.count("(") >= 2:
             ctx.count("nested_depth2_configs")
